@@ -152,22 +152,21 @@ impl IoLoopHandle {
         self.send(IoLoopMessage::Send(buf))
     }
 
-    pub(super) fn send_content_header(
+    pub(super) fn send_with_content<M: IntoAmqpClass>(
         &mut self,
+        method: M,
+        content: &[u8],
         class_id: u16,
-        len: usize,
         properties: &AmqpProperties,
+        frame_max: usize,
     ) -> Result<()> {
         debug_assert!(self.buf.is_empty());
+        self.buf.push_method(self.channel_id, method);
         self.buf
-            .push_content_header(self.channel_id, class_id, len, properties);
-        let buf = self.buf.drain_into_new_buf();
-        self.send(IoLoopMessage::Send(buf))
-    }
-
-    pub(super) fn send_content_body(&mut self, content: &[u8]) -> Result<()> {
-        debug_assert!(self.buf.is_empty());
-        self.buf.push_content_body(self.channel_id, content);
+            .push_content_header(self.channel_id, class_id, content.len(), properties);
+        for chunk in content.chunks(frame_max) {
+            self.buf.push_content_body(self.channel_id, chunk);
+        }
         let buf = self.buf.drain_into_new_buf();
         self.send(IoLoopMessage::Send(buf))
     }
